@@ -92,6 +92,9 @@ def candidates(plan):
         for i in range(len(reqs)):
             c = copy.deepcopy(scn)
             del c['requests'][i]
+            if c.get('connect_order') is not None:
+                # keep the forced arrival order consistent with the renumbered requests
+                c['connect_order'] = [j - 1 if j > i else j for j in c['connect_order'] if j != i]
             yield f'drop-request-{i}', {**plan, 'scenario': c}
 
 
